@@ -31,6 +31,12 @@ __wrap_timerfd_create(int clk, int flags) {
 	rec_tfd_last = __real_timerfd_create(clk, flags);
 	return (rec_tfd_last);
 }
+int	__real_close(int);
+int
+__wrap_close(int fd) { /* the library closes a timerfd when it deletes the timer */
+	if (fd == rec_tfd_last && fd >= 0) rec_tfd_last = -1;
+	return (__real_close(fd));
+}
 
 int
 __wrap_timerfd_settime(int fd, int flags, const struct itimerspec *n, struct itimerspec *o) {
@@ -235,7 +241,9 @@ apply(const hstep_t *s) {
 	case H_FIRE:
 		/* Also while a dispatch task is paused: the library must have silenced its timer, so an
 		 * expiry then must not reach the callback (it is not counted as "expired while armed"). */
-		if (!(C.timeout && task_started && !task_dead) || rec_tfd_last < 0)
+		/* Also after stop/destroy: a timer the library forgot to delete is still part of the
+		 * environment; on the correct tree the timerfd is closed by then and the step is a no-op. */
+		if (!(C.timeout && task_started) || rec_tfd_last < 0)
 			break;
 		memset(&its, 0, sizeof(its));
 		its.it_value.tv_nsec = 1;
